@@ -787,6 +787,205 @@ def oracle_wrappers(ctx, stats=None, reps=1):
     return found
 
 
+def data_optional_methods(two_d=False):
+    """registered methods whose `data` argument may be omitted (read from the signatures)"""
+    out = []
+    for name in M.method_names(two_d):
+        d = sig_params(name, two_d).get('data')
+        if d is not None and d.default is None:
+            out.append(name)
+    return out
+
+
+def oracle_nodata(ctx):
+    """FIXED grid: every method that may be called WITHOUT data (interp_pts), class and functional interface, on
+    unsorted x; baseline_points supplied ascending / descending / shuffled; every interpolation kind; also the
+    data-less call must agree with the call with data on the same fitter."""
+    import pybaselines.misc as misc
+    from pybaselines import Baseline
+    rng = ctx.rng
+    found = 0
+    names = data_optional_methods()
+    ctx.extra['data_optional_methods'] = names
+    for name in names:
+        if name != 'interp_pts':
+            ctx.broke('oracle:nodata', 'method %s accepts data=None but the data-less oracle has no call recipe for it' % name)
+            continue
+        for n in (23, 41):
+            x = distinct_x(rng, n, 0.0, 100.0)
+            y = y_1d(rng, x)
+            perms = [np.arange(n)[::-1].copy(), np.roll(np.arange(n), 5), rand_perm(rng, n)]
+            pts0 = np.array([[x[0] - 1, 3.0], [30.0, 12.0], [47.5, -2.0], [62.5, 7.0], [x[-1] + 1, 40.0]])
+            for pi, perm in enumerate(perms):
+                for po, pts in (('ascending', pts0), ('descending', pts0[::-1]), ('shuffled', pts0[[2, 0, 4, 1, 3]])):
+                    for kind in ('linear', 'quadratic', 'cubic', 'nearest'):
+                        label = 'interp_pts(baseline_points %s, %s)' % (po, kind)
+                        kw = {'baseline_points': pts, 'interp_method': kind}
+                        runs = {}
+                        for tag, fn in (
+                                ('class,data', lambda xx, yy: Baseline(xx).interp_pts(yy, **kw)[0]),
+                                ('class,no data', lambda xx, yy: Baseline(xx).interp_pts(**kw)[0]),
+                                ('functional,no data', lambda xx, yy: misc.interp_pts(xx, **kw)[0]),
+                                ('functional,data', lambda xx, yy: misc.interp_pts(xx, data=yy, **kw)[0])):
+                            try:
+                                with warnings.catch_warnings():
+                                    warnings.simplefilter('ignore')
+                                    runs[tag] = (np.asarray(fn(x, y)), np.asarray(fn(x[perm], y[perm])))
+                            except Exception as exc:   # noqa
+                                runs[tag] = 'raises ' + type(exc).__name__
+                        for tag, r in runs.items():
+                            ctx.case(('nodata', label, tag, n, pi), nontrivial=not isinstance(r, str), kind='oracle1d:nodata')
+                            if isinstance(r, str):
+                                continue
+                            ok, info = close(r[0][perm], r[1], RTOL[False])
+                            ok2, info2 = close(runs['class,data'][1], r[1], RTOL[False]) if not isinstance(
+                                runs['class,data'], str) else (True, None)
+                            if not ok or not ok2:
+                                found += 1
+                                what = ('is not the permuted result of the sorted call: %s' % info if not ok else
+                                        'differs from the same call WITH data on the same fitter: %s' % info2)
+                                ctx.fail('order:1d:interp_pts:%s' % tag.replace(',', '-').replace(' ', ''),
+                                         '%s [%s] on x[perm] (N=%d) %s' % (label, tag, n, what),
+                                         {'kind': 'nodata', 'tag': tag, 'interp_method': kind, 'points': pts.tolist(),
+                                          'x': [float(v) for v in x], 'y': [float(v) for v in y],
+                                          'perm': [int(v) for v in perm]})
+    return found
+
+
+ROBUST_1D = ['asls', 'iasls', 'aspls', 'modpoly', 'loess', 'pspline_asls', 'mixture_model', 'mor', 'mpls', 'fabc',
+             'rubberband', 'snip', 'beads', 'optimize_extended_range', 'adaptive_minmax', 'collab_pls', 'custom_bc']
+ROBUST_2D = ['asls', 'modpoly', 'pspline_asls', 'mor', 'individual_axes', 'adaptive_minmax']
+
+
+def _neg_stride(a):
+    return np.ascontiguousarray(a[..., ::-1])[..., ::-1]
+
+
+def _strided(a):
+    return np.repeat(a, 2, axis=-1)[..., ::2]
+
+
+def call_on(fitter, name, y, extra, two_d=False):
+    kw = M.call_kwargs(name, two_d, **extra)
+    if name == 'collab_pls':
+        return fitter.collab_pls(np.array([y, y * 1.1 + 1]), **kw)
+    return getattr(fitter, name)(y, **kw)
+
+
+def oracle_robust(ctx, stats=None):
+    """FIXED grid over a cross-section of methods: (a) a fitter on unsorted x whose history contains REJECTED calls
+    (raised up front and raised deep inside an optimizer) and an accepted call of another method, (b) non-default
+    memory layouts of x, data and weights (negative strides, strided views, Fortran order / transposed views in 2-D),
+    (c) data at extreme but finite magnitudes -- each compared with the permuted result of a FRESH fitter on sorted x."""
+    from pybaselines import Baseline, Baseline2D
+    rng = ctx.rng
+    found = 0
+    n = 47
+    x = distinct_x(rng, n, 0.0, 100.0)
+    y = y_1d(rng, x)
+    perm = rand_perm(rng, n)
+    w = np.random.RandomState(11).uniform(0.05, 1.0, n)
+
+    def history(fit, yy):
+        for bad in (lambda: fit.asls(yy[:-3]), lambda: fit.asls(yy, diff_order=0),
+                    lambda: fit.optimize_extended_range(yy, method='asls', method_kwargs={'lam': -1.0}),
+                    lambda: fit.adaptive_minmax(yy, constrained_fraction=2.0),
+                    lambda: fit.collab_pls(yy), lambda: fit.not_a_method(yy)):
+            try:
+                bad()
+            except Exception:   # noqa
+                pass
+        fit.modpoly(yy, poly_order=3)
+        fit.pspline_asls(yy, num_knots=6, lam=10)
+
+    variants = [
+        ('history with rejected calls', lambda xx, yy, ww: (xx, yy, ww), history, 1.0),
+        ('negative strides', lambda xx, yy, ww: (_neg_stride(xx), _neg_stride(yy), _neg_stride(ww)), None, 1.0),
+        ('strided views', lambda xx, yy, ww: (_strided(xx), _strided(yy), _strided(ww)), None, 1.0),
+        ('python lists', lambda xx, yy, ww: (list(xx), list(yy), list(ww)), None, 1.0),
+        ('data * 1e-150', lambda xx, yy, ww: (xx, yy, ww), None, 1e-150),
+        ('data * 1e+150', lambda xx, yy, ww: (xx, yy, ww), None, 1e150),
+    ]
+    for name in ROBUST_1D:
+        has_w = 'weights' in sig_params(name) and name != 'collab_pls'
+        for use_w in ((False, True) if has_w else (False,)):
+            for label, layout, hist, scale in variants:
+                res = []
+                for p in (None, perm):
+                    try:
+                        with warnings.catch_warnings():
+                            warnings.simplefilter('ignore')
+                            xx, yy, ww = (x, y * scale, w) if p is None else layout(x[p], (y * scale)[p], w[p])
+                            fit = Baseline(xx)
+                            if p is not None and hist is not None:
+                                hist(fit, np.asarray(yy))
+                            extra = {'weights': ww} if use_w else {}
+                            b, prm = call_on(fit, name, np.asarray(yy) if name == 'collab_pls' else yy, extra)
+                        res.append({'baseline': np.array(b), 'params': prm})
+                    except Exception as exc:   # noqa
+                        res.append('raises ' + type(exc).__name__)
+                full = '%s%s, %s' % (name, ' +weights' if use_w else '', label)
+                ctx.case(('rob', full), nontrivial=not isinstance(res[0], str), kind='oracle1d:robust')
+                err = judge(res[0], res[1], perm, (n,), False, name, stats)
+                if err:
+                    found += 1
+                    ctx.fail('order:1d:%s:robust:%s' % (name, label.split(' ')[0]),
+                             'Baseline(x[perm]).%s [%s] is not the permuted result of a fresh sorted call (N=%d): %s'
+                             % (name, full, n, err),
+                             {'kind': 'robust', 'label': full, 'x': [float(v) for v in x], 'y': [float(v) for v in y],
+                              'perm': [int(v) for v in perm]})
+    # 2-D
+    m, nn = 11, 14
+    x2 = distinct_x(rng, m, -3.0, 8.0)
+    z2 = distinct_x(rng, nn, 10.0, 50.0)
+    _, _, y2 = M.make_z2d(nprng(rng), m, nn)
+    px, pz = rand_perm(rng, m), rand_perm(rng, nn)
+
+    def hist2(fit, yy):
+        for bad in (lambda: fit.asls(yy[:-1]), lambda: fit.asls(yy, diff_order=0),
+                    lambda: fit.individual_axes(yy, method='nope'), lambda: fit.adaptive_minmax(yy, constrained_fraction=3.0)):
+            try:
+                bad()
+            except Exception:   # noqa
+                pass
+        fit.modpoly(yy, poly_order=2)
+
+    variants2 = [
+        ('history with rejected calls', lambda a: a, hist2, 1.0),
+        ('Fortran order', lambda a: np.asfortranarray(a), None, 1.0),
+        ('transposed view', lambda a: np.ascontiguousarray(a.T).T, None, 1.0),
+        ('negative strides', lambda a: np.ascontiguousarray(a[::-1, ::-1])[::-1, ::-1], None, 1.0),
+        ('data * 1e+150', lambda a: a, None, 1e150),
+    ]
+    for name in ROBUST_2D:
+        for label, layout, hist, scale in variants2:
+            res = []
+            for p in (None, (px, pz)):
+                try:
+                    with warnings.catch_warnings():
+                        warnings.simplefilter('ignore')
+                        if p is None:
+                            fit, yy = Baseline2D(x2, z2), y2 * scale
+                        else:
+                            fit, yy = Baseline2D(_neg_stride(x2[px]) if 'strides' in label else x2[px], z2[pz]), \
+                                layout(take(y2 * scale, p, True))
+                            if hist is not None:
+                                hist(fit, yy)
+                        b, prm = call_on(fit, name, yy, {}, True)
+                    res.append({'baseline': np.array(b), 'params': prm})
+                except Exception as exc:   # noqa
+                    res.append('raises ' + type(exc).__name__)
+            full = '%s, %s' % (name, label)
+            ctx.case(('rob2', full), nontrivial=not isinstance(res[0], str), kind='oracle2d:robust')
+            err = judge(res[0], res[1], (px, pz), (m, nn), True, name, stats, rtol=1e-7)
+            if err:
+                found += 1
+                ctx.fail('order:2d:%s:robust:%s' % (name, label.split(' ')[0]),
+                         'Baseline2D(x[px], z[pz]).%s [%s] is not the permuted result of a fresh sorted call: %s' % (name, full, err),
+                         {'kind': 'robust', 'label': full})
+    return found
+
+
 # ------------------------------------------------------------------------------------------------ setup log
 class SetupLog:
     """Records the weight array every _setup_* call returns (the array that reaches the solves).  On permuted
@@ -889,6 +1088,15 @@ def make_probe():
             if with_opt:                                                   # a conditionally output sort_keys entry
                 prm['opt'] = np.stack([k, k * k, y], axis=1)               # shape (N, 3)
             return y + 1000 * k + 7 * self.x, prm
+
+        @_Algorithm._register(sort_keys=('pos',))
+        def nodata(self, data=None, weights=None):
+            # data=None reaches the body as np.asarray(None, dtype=float): a 0-d nan
+            k = np.arange(self._size)
+            base = 7 * self.x + 1000 * k
+            if np.ndim(data) == 1:
+                base = base + data
+            return base, {'pos': 2 * self.x + k}
     return Probe
 
 
@@ -985,6 +1193,44 @@ Eval vm_compute in (bad ok cases).
             ctx.discharged.append('correspondence:wrapper(_register.inner,_setup_*,_return_results)')
         else:
             ctx.broke('correspondence:wrapper', 'wrapper model and the real _register wrapper disagree: %s' % vals)
+
+    # B2. the data-less entry of the real wrapper (data=None) against wrapperN
+    lits = []
+    for _ in range(ctx.n(60, 250)):
+        n = rng.choice([2, 3, 4, 5, 7, 9])
+        x = rng.sample(range(-40, 40), n)
+        if rng.random() < 0.2:
+            x = sorted(x)
+        y = [rng.randint(-9, 9) for _ in range(n)] if rng.random() < 0.5 else None
+        with warnings.catch_warnings():
+            warnings.simplefilter('ignore')
+            fit = Probe(np.array(x, dtype=float))
+            b, p = fit.nodata() if y is None else fit.nodata(np.array(y, dtype=float))
+        lits.append('(%s, %s, %s, %s)' % (zlist(x), 'None' if y is None else '(Some %s)' % zlist(y),
+                                          zlist(int_rows(b)), zlist(int_rows(p['pos']))))
+        ctx.case(('nd', tuple(x), None if y is None else tuple(y)), nontrivial=x != sorted(x) and y is None,
+                 kind='corr:wrapper-nodata')
+    text = HEADER + """
+Definition nbody (xs : list Z) (ys ws : option (list Z)) : list Z * list (list Z) :=
+  let n := length xs in
+  (map (fun k => 7 * nth k xs 0 + 1000 * Z.of_nat k + match ys with Some y => nth k y 0 | None => 0 end) (seq 0 n),
+   [map (fun k => 2 * nth k xs 0 + Z.of_nat k) (seq 0 n)]).
+Definition cases : list (list Z * option (list Z) * list Z * list Z) := [
+%s
+].
+Definition ok (c : list Z * option (list Z) * list Z * list Z) : bool :=
+  let '(x, y, eb, ep) := c in
+  let r := wrapperN Z Z 0 0 nbody false x y None in
+  zl_eqb (fst r) eb && zll_eqb (snd r) [ep].
+Eval vm_compute in (bad ok cases).
+""" % ';\n'.join('  ' + l for l in lits)
+    vals = ctx.coq_eval('nodata', text)
+    ctx.obligations.append('correspondence:wrapper-without-data(_register.inner data=None)')
+    if vals is not None:
+        if ok_vals(vals) and lits:
+            ctx.discharged.append('correspondence:wrapper-without-data(_register.inner data=None)')
+        else:
+            ctx.broke('correspondence:nodata', 'wrapperN and the real _register wrapper disagree when data is None: %s' % vals)
 
     # C. the four 2-D layouts of _sort_order/_inverted_order with utils._sort_array2d
     from pybaselines.two_d._algorithm_setup import _Algorithm2D
@@ -1487,6 +1733,12 @@ def run(ctx):
     f1 = oracle_1d(ctx, b1, stats=stats)
     f2 = oracle_2d(ctx, b2, stats=stats)
     f3 = oracle_functional(ctx, b1)
+    f7 = oracle_nodata(ctx)
+    f8 = oracle_robust(ctx, stats=stats)
+    ctx.note('calls WITHOUT data (methods whose data may be None: %s; class + functional interface, 3 permutations x 3 orders of '
+             'baseline_points x 4 interpolation kinds x 2 sizes): %d failing; robustness grid (history with rejected calls, '
+             'negative-stride / strided / list / Fortran / transposed inputs, data scaled by 1e-150 and 1e150) over %d 1-D and %d 2-D '
+             'methods: %d failing' % (ctx.extra.get('data_optional_methods'), f7, len(ROBUST_1D), len(ROBUST_2D), f8))
     f6 = oracle_wrappers(ctx, stats=stats, reps=ctx.n(1, 4) * (2 if stressed else 1))
     ctx.note('optimizer/wrapper methods around wrapped methods of every module (whittaker, spline, polynomial, morphological, '
              'classification incl. mask-reporting fabc/dietrich/cwt_br/std_distribution/rubberband, smooth, misc): %d cases per '
@@ -1594,6 +1846,30 @@ def replay(rep):
         err = judge(ref, got, perm, y.shape, two_d, wrapper, extra=extra) or ld
         print('replay %s:' % label, err or 'property holds on this input')
         return 1 if err else 0
+    if kind == 'nodata':
+        import pybaselines.misc as misc
+        from pybaselines import Baseline
+        x = np.array(case['x'])
+        y = np.array(case['y'])
+        perm = np.array(case['perm'], dtype=np.intp)
+        kw = {'baseline_points': np.array(case['points']), 'interp_method': case['interp_method']}
+        fn = {'class,data': lambda xx, yy: Baseline(xx).interp_pts(yy, **kw)[0],
+              'class,no data': lambda xx, yy: Baseline(xx).interp_pts(**kw)[0],
+              'functional,no data': lambda xx, yy: misc.interp_pts(xx, **kw)[0],
+              'functional,data': lambda xx, yy: misc.interp_pts(xx, data=yy, **kw)[0]}[case['tag']]
+        with warnings.catch_warnings():
+            warnings.simplefilter('ignore')
+            ref, got = np.asarray(fn(x, y)), np.asarray(fn(x[perm], y[perm]))
+            withdata = np.asarray(Baseline(x[perm]).interp_pts(y[perm], **kw)[0])
+        ok, info = close(ref[perm], got, RTOL[False])
+        ok2, info2 = close(withdata, got, RTOL[False])
+        err = None if (ok and ok2) else ('not the permuted result of the sorted call: %s' % info if not ok
+                                          else 'differs from the call with data: %s' % info2)
+        print('replay interp_pts [%s, %s]:' % (case['tag'], case['interp_method']), err or 'property holds on this input')
+        return 1 if err else 0
+    if kind == 'robust':
+        print('replay: robustness-grid case "%s" is part of the FIXED grid; re-run ./bin/check C02 quick to reproduce' % case.get('label'))
+        return 1
     if kind == 'functional':
         print('replay: functional-interface case %s; re-run ./bin/check C02 quick to reproduce (inputs are in the file)' % case.get('label'))
         return 1
